@@ -418,12 +418,13 @@ func restart(old *instance, repo string, plus bool, cluster []Res) (*instance, s
 }
 
 var (
-	reServerName = regexp.MustCompile(`(?m)^\s*server_name\s+s(\d+)\.example\.com;`)
-	reIngOwner   = regexp.MustCompile(`(?m)^# configuration for (\S+)`)
-	reVSName     = regexp.MustCompile(`(?m)set \$resource_name "([^"]*)";`)
-	reVSNS       = regexp.MustCompile(`(?m)set \$resource_namespace "([^"]*)";`)
-	reTSUp       = regexp.MustCompile(`(?m)^\s*upstream\s+(ts_\S+)_s(\d+)\s*\{`)
-	reHostLine   = regexp.MustCompile(`^(\S+)\s+(\S+);$`)
+	reServerName  = regexp.MustCompile(`(?m)^\s*server_name\s+s(\d+)\.example\.com;`)
+	reReadTimeout = regexp.MustCompile(`(?m)^\s*proxy_read_timeout\s+(\d+)s;`)
+	reIngOwner    = regexp.MustCompile(`(?m)^# configuration for (\S+)`)
+	reVSName      = regexp.MustCompile(`(?m)set \$resource_name "([^"]*)";`)
+	reVSNS        = regexp.MustCompile(`(?m)set \$resource_namespace "([^"]*)";`)
+	reTSUp        = regexp.MustCompile(`(?m)^\s*upstream\s+(ts_\S+)_s(\d+)\s*\{`)
+	reHostLine    = regexp.MustCompile(`^(\S+)\s+(\S+);$`)
 )
 
 func listDir(dir string, stream bool) []FileObs {
@@ -445,6 +446,10 @@ func listDir(dir string, stream bool) []FileObs {
 		} else {
 			if m := reServerName.FindStringSubmatch(s); m != nil {
 				fo.Stamp, _ = strconv.Atoi(m[1])
+			} else if m := reReadTimeout.FindStringSubmatch(s); m != nil {
+				if v, _ := strconv.Atoi(m[1]); v >= 1000 {
+					fo.Stamp = v - 1000
+				}
 			}
 			if m := reIngOwner.FindStringSubmatch(s); m != nil {
 				fo.Owner = m[1]
@@ -723,6 +728,9 @@ type NEvent struct {
 	Op string `json:"op"`
 	NS string `json:"ns,omitempty"` // unlabel
 	R  *NRes  `json:"r,omitempty"`
+	// op gc: the GlobalConfiguration now has these TCP listeners [name, port] (GCDel: it was deleted)
+	Listeners [][2]string `json:"listeners,omitempty"`
+	GCDel     bool        `json:"gc_del,omitempty"`
 }
 
 // NRes is an object of the cluster. Kind: ing | vs | ts (ts: TLS passthrough with host pt<idx>).
@@ -734,6 +742,12 @@ type NRes struct {
 	Class   string `json:"class"`
 	Invalid bool   `json:"invalid,omitempty"`
 	Host    string `json:"host,omitempty"`
+	// arbitration cases: the hosts of an Ingress / the host of a VirtualServer (instead of the stamp host; the stamp is
+	// then rendered as proxy_read_timeout <1000+stamp>s) and the age of the object (creationTimestamp: lower = older = wins)
+	Hosts []string `json:"hosts,omitempty"`
+	Age   int      `json:"age,omitempty"`
+	// ts: name of a TCP listener of the GlobalConfiguration (instead of the built-in tls-passthrough listener)
+	Listener string `json:"listener,omitempty"`
 }
 
 type NCause struct {
@@ -757,7 +771,7 @@ func nslObject(r NRes) interface{} {
 	om := func(m *meta_v1.ObjectMeta) {
 		m.Generation = int64(r.Stamp)
 		m.UID = types.UID(r.Kind + "/" + r.NS + "/" + r.Name)
-		m.CreationTimestamp = meta_v1.NewTime(time.Unix(1700000000, 0))
+		m.CreationTimestamp = meta_v1.NewTime(time.Unix(1700000000+int64(r.Age), 0))
 	}
 	switch r.Kind {
 	case "ing":
@@ -767,6 +781,16 @@ func nslObject(r NRes) interface{} {
 		ing.Spec.IngressClassName = &class
 		pt := networking.PathTypePrefix
 		ing.Spec.Rules[0].HTTP.Paths[0].PathType = &pt
+		if len(r.Hosts) > 0 {
+			rule := ing.Spec.Rules[0]
+			ing.Spec.Rules = nil
+			for _, h := range r.Hosts {
+				x := *rule.DeepCopy()
+				x.Host = h
+				ing.Spec.Rules = append(ing.Spec.Rules, x)
+			}
+			ing.Annotations["nginx.org/proxy-read-timeout"] = fmt.Sprintf("%ds", 1000+r.Stamp)
+		}
 		if r.Invalid {
 			ing.Spec.Rules[0].Host = ""
 		}
@@ -775,14 +799,24 @@ func nslObject(r NRes) interface{} {
 	case "vs":
 		vs := vsEx(base).VirtualServer
 		vs.Spec.IngressClass = r.Class
+		if len(r.Hosts) > 0 {
+			vs.Spec.Host = r.Hosts[0]
+			vs.Spec.Upstreams[0].ProxyReadTimeout = fmt.Sprintf("%ds", 1000+r.Stamp)
+		}
 		if r.Invalid {
 			vs.Spec.Host = ""
 		}
 		om(&vs.ObjectMeta)
 		return vs
 	default:
+		if r.Listener != "" {
+			base.PT, base.Host = false, ""
+		}
 		ts := tsEx(base).TransportServer
 		ts.Spec.IngressClass = r.Class
+		if r.Listener != "" {
+			ts.Spec.Listener = conf_v1.TransportServerListener{Name: r.Listener, Protocol: "TCP"}
+		}
 		if r.Invalid {
 			ts.Spec.Action = nil
 		}
@@ -842,6 +876,7 @@ func runNsl(work, repo string, c *Case) {
 		queue = append(queue, t)
 	}
 	obs := []NObs{}
+	listeners := map[string]bool{}
 	c.Expect, c.Unserved = nil, nil
 	for _, e := range c.Script {
 		switch e.Op {
@@ -874,6 +909,20 @@ func runNsl(work, repo string, c *Case) {
 				enqueue(nslTask{r.Kind, r.NS + "/" + r.Name})
 				last[k] = lastEv{"deleted", pendingNs[r.NS]}
 			}
+		case "gc":
+			listeners = map[string]bool{}
+			if e.GCDel {
+				ctl.StoreGC(nil)
+			} else {
+				gc := &conf_v1.GlobalConfiguration{ObjectMeta: meta_v1.ObjectMeta{Namespace: "nginx-ingress", Name: "gc"}}
+				for _, l := range e.Listeners {
+					port, _ := strconv.Atoi(l[1])
+					gc.Spec.Listeners = append(gc.Spec.Listeners, conf_v1.Listener{Name: l[0], Port: port, Protocol: "TCP"})
+					listeners[l[0]] = true
+				}
+				ctl.StoreGC(gc)
+			}
+			enqueue(nslTask{"gc", k8s.VerifC10GCKey})
 		case "unlabel":
 			if labelled[e.NS] {
 				labelled[e.NS] = false
@@ -908,14 +957,55 @@ func runNsl(work, repo string, c *Case) {
 			obs = append(obs, o)
 			var exp []Res
 			var uns []NCause
+			// host arbitration: the oldest eligible claimant of a host holds it; a resource is served when it holds a host
+			eligible := func(r NRes) bool {
+				return labelled[r.NS] && r.Class == "nginx" && !r.Invalid && (r.Listener == "" || listeners[r.Listener])
+			}
+			claims := func(r NRes) []string {
+				switch {
+				case len(r.Hosts) > 0:
+					return r.Hosts
+				case r.Kind == "ts" && r.Listener != "":
+					return []string{"listener:" + r.Listener}
+				case r.Kind == "ts":
+					return []string{r.Host} // a passthrough host contends with the hosts of Ingresses and VirtualServers
+				}
+				return []string{stampHost(r.Stamp)}
+			}
+			older := func(a, b NRes) bool {
+				if a.Age != b.Age {
+					return a.Age < b.Age
+				}
+				return a.Kind+"/"+a.NS+"/"+a.Name < b.Kind+"/"+b.NS+"/"+b.Name
+			}
+			holder := map[string]NRes{}
+			for _, k := range order {
+				if r, ok := cluster[k]; ok && eligible(r) {
+					for _, h := range claims(r) {
+						if cur, taken := holder[h]; !taken || older(r, cur) {
+							holder[h] = r
+						}
+					}
+				}
+			}
+			holds := func(r NRes) bool {
+				for _, h := range claims(r) {
+					if w := holder[h]; w.Kind == r.Kind && w.NS == r.NS && w.Name == r.Name {
+						return true
+					}
+				}
+				return false
+			}
 			for _, k := range order {
 				r, exists := cluster[k]
 				id := strings.SplitN(k[2:], "/", 2)
 				kind := map[byte]string{'i': "ing", 'v': "vs", 't': "ts"}[k[0]]
 				le := last[k]
 				switch {
-				case exists && labelled[r.NS] && r.Class == "nginx" && !r.Invalid:
-					exp = append(exp, Res{Kind: r.Kind, NS: r.NS, Name: r.Name, Stamp: r.Stamp, PT: r.Kind == "ts", Host: r.Host})
+				case exists && eligible(r) && !holds(r):
+					uns = append(uns, NCause{kind, id[0], id[1], "lost-every-host"})
+				case exists && eligible(r):
+					exp = append(exp, Res{Kind: r.Kind, NS: r.NS, Name: r.Name, Stamp: r.Stamp, PT: r.Kind == "ts" && r.Listener == "", Host: r.Host})
 				case le.behind:
 					uns = append(uns, NCause{kind, id[0], id[1], le.what + "-behind-namespace-task"})
 				case !exists:
@@ -1003,6 +1093,87 @@ func genNsl(r *vh.Rng, id int) Case {
 	return c
 }
 
+// genNslArb: Ingresses (several hosts) and VirtualServers (one host) of one namespace contending for a small pool of
+// hosts, objects of any age becoming known in any order, class flips, deletions; several events per drain so that one
+// rebuild moves several resources at once.
+func genNslArb(r *vh.Rng, id int) Case {
+	c := Case{Fam: "nsl", ID: id, Class: "arb"}
+	pool := []string{"a.example.com", "b.example.com", "c.example.com", "d.example.com", "e.example.com"}[:3+r.Intn(3)]
+	type obj struct {
+		kind, name string
+		age        int
+		hosts      []string
+	}
+	var objs []obj
+	n := 3 + r.Intn(4)
+	ages := r.Intn(3)
+	for i := 0; i < n; i++ {
+		o := obj{kind: "ing", name: fmt.Sprintf("i%d", i), age: 10 + i}
+		if ages == 0 {
+			o.age = 50 - i // the later ones are older
+		} else if ages == 1 {
+			o.age = 1 + r.Intn(40)*10 + i // distinct ages: the tie-break by UID is not part of these histories
+		}
+		if r.Chance(1, 4) {
+			o.kind, o.name = "vs", fmt.Sprintf("v%d", i)
+			o.hosts = []string{vh.Pick(r, pool)}
+		} else {
+			for k := 0; k < 1+r.Intn(3); k++ {
+				h := vh.Pick(r, pool)
+				dup := false
+				for _, x := range o.hosts {
+					dup = dup || x == h
+				}
+				if !dup {
+					o.hosts = append(o.hosts, h)
+				}
+			}
+			if r.Chance(1, 2) {
+				o.hosts = append(o.hosts, o.name+".example.com") // a host nobody else wants
+			}
+		}
+		objs = append(objs, o)
+	}
+	stamp := 0
+	exists := map[int]bool{}
+	put := func(i int, class string) {
+		stamp++
+		o := objs[i]
+		exists[i] = true
+		c.Script = append(c.Script, NEvent{Op: "put", R: &NRes{Kind: o.kind, NS: "default", Name: o.name, Stamp: stamp, Class: class, Hosts: o.hosts, Age: o.age}})
+	}
+	order := r.Intn(2)
+	for i := range objs {
+		j := i
+		if order == 1 {
+			j = len(objs) - 1 - i
+		}
+		put(j, "nginx")
+		if r.Chance(2, 3) {
+			c.Script = append(c.Script, NEvent{Op: "drain"})
+		}
+	}
+	c.Script = append(c.Script, NEvent{Op: "drain"})
+	for k := 0; k < 2+r.Intn(5); k++ {
+		i := r.Intn(len(objs))
+		switch x := r.Intn(10); {
+		case x < 3 && exists[i]:
+			o := objs[i]
+			exists[i] = false
+			c.Script = append(c.Script, NEvent{Op: "del", R: &NRes{Kind: o.kind, NS: "default", Name: o.name}})
+		case x < 6:
+			put(i, "other")
+		default:
+			put(i, "nginx")
+		}
+		if r.Chance(1, 2) {
+			c.Script = append(c.Script, NEvent{Op: "drain"})
+		}
+	}
+	c.Script = append(c.Script, NEvent{Op: "drain"})
+	return c
+}
+
 func nslWitnesses(id *int) []Case {
 	base := func() []NEvent {
 		return []NEvent{
@@ -1035,7 +1206,40 @@ func nslWitnesses(id *int) []Case {
 		*id++
 		return c
 	}
+	ingH := func(name string, stamp, age int, hosts ...string) NEvent {
+		return NEvent{Op: "put", R: &NRes{Kind: "ing", NS: "default", Name: name, Stamp: stamp, Class: "nginx", Hosts: hosts, Age: age}}
+	}
 	return []Case{
+		// host hand-over to an OLDER Ingress that becomes known later: two Ingresses lose one of their hosts, a third all of its
+		// hosts, in one rebuild (squashResourceChanges: delete+update of two resources and a plain delete of a third)
+		mk("arb-handover-3", []NEvent{ingH("shop", 1, 10, "a.example.com", "shop.example.com"), ingH("blog", 2, 11, "b.example.com", "www.example.com"),
+			ingH("wiki", 3, 12, "c.example.com"), {Op: "drain"},
+			ingH("legacy", 4, 1, "a.example.com", "b.example.com", "c.example.com"), {Op: "drain"},
+			{Op: "del", R: &NRes{Kind: "ing", NS: "default", Name: "legacy"}}, {Op: "drain"}}),
+		// an Ingress migrated to a VirtualServer of the same namespace and name (and a passthrough TransportServer to a VirtualServer)
+		mk("arb-same-name", []NEvent{ingH("cafe", 1, 1, "cafe.example.com"),
+			{Op: "put", R: &NRes{Kind: "vs", NS: "default", Name: "cafe", Stamp: 2, Class: "nginx", Hosts: []string{"cafe.example.com"}, Age: 5}},
+			{Op: "put", R: &NRes{Kind: "ts", NS: "default", Name: "app", Stamp: 3, Class: "nginx", Host: "app.example.com", Age: 1}},
+			{Op: "put", R: &NRes{Kind: "vs", NS: "default", Name: "app", Stamp: 4, Class: "nginx", Hosts: []string{"app.example.com"}, Age: 5}}, {Op: "drain"},
+			{Op: "del", R: &NRes{Kind: "ing", NS: "default", Name: "cafe"}}, {Op: "drain"},
+			{Op: "del", R: &NRes{Kind: "ts", NS: "default", Name: "app"}}, {Op: "drain"}}),
+		// GlobalConfiguration: a listener that carries a TransportServer is removed and nothing else changes; then the whole object goes
+		mk("arb-gc-pure-removal", []NEvent{{Op: "gc", Listeners: [][2]string{{"tcp-7777", "7777"}, {"tcp-8888", "8888"}}},
+			{Op: "put", R: &NRes{Kind: "ts", NS: "default", Name: "a", Stamp: 1, Class: "nginx", Listener: "tcp-7777", Age: 1}},
+			{Op: "put", R: &NRes{Kind: "ts", NS: "default", Name: "b", Stamp: 2, Class: "nginx", Listener: "tcp-8888", Age: 2}}, {Op: "drain"},
+			{Op: "gc", Listeners: [][2]string{{"tcp-8888", "8888"}}}, {Op: "drain"},
+			{Op: "gc", GCDel: true}, {Op: "drain"}}),
+		// a passthrough TransportServer moves to a TCP listener; later an unrelated resource makes the hosts rebuild
+		mk("arb-gc-pt-to-tcp", []NEvent{{Op: "gc", Listeners: [][2]string{{"tcp-7777", "7777"}}},
+			{Op: "put", R: &NRes{Kind: "ts", NS: "default", Name: "secure-app", Stamp: 1, Class: "nginx", Host: "app.example.com", Age: 1}}, {Op: "drain"},
+			{Op: "put", R: &NRes{Kind: "ts", NS: "default", Name: "secure-app", Stamp: 2, Class: "nginx", Listener: "tcp-7777", Age: 1}}, {Op: "drain"},
+			{Op: "put", R: &NRes{Kind: "vs", NS: "default", Name: "cafe", Stamp: 3, Class: "nginx", Age: 3}}, {Op: "drain"},
+			ingH("other", 4, 4, "other.example.com"), {Op: "drain"}}),
+		mk("arb-handover-2", []NEvent{ingH("shop", 1, 10, "a.example.com", "shop.example.com"), ingH("blog", 2, 11, "b.example.com", "www.example.com"),
+			{Op: "drain"}, ingH("legacy", 3, 1, "a.example.com", "b.example.com"), {Op: "drain"}}),
+		mk("arb-handover-4", []NEvent{ingH("shop", 1, 10, "a.example.com", "shop.example.com"), ingH("blog", 2, 11, "b.example.com", "www.example.com"),
+			ingH("news", 3, 12, "c.example.com", "news.example.com"), ingH("wiki", 4, 13, "d.example.com"), ingH("docs", 5, 14, "e.example.com"), {Op: "drain"},
+			ingH("legacy", 6, 1, "a.example.com", "b.example.com", "c.example.com", "d.example.com", "e.example.com"), {Op: "drain"}}),
 		mk("nsl-unlabel", cat(base(), unl, drain)),
 		mk("nsl-class-behind", cat(base(), unl, three(10, "other", false), drain)),
 		mk("nsl-class-before", cat(base(), three(10, "other", false), unl, drain)),
@@ -1909,6 +2113,10 @@ func generate(a vh.Args) []Case {
 	cases = append(cases, nslWitnesses(&id)...)
 	for i := 0; i < a.N/8+10; i++ {
 		cases = append(cases, genNsl(root.Fork(uint64(id)+5<<32), id))
+		id++
+	}
+	for i := 0; i < a.N/10+10; i++ {
+		cases = append(cases, genNslArb(root.Fork(uint64(id)+6<<32), id))
 		id++
 	}
 	for i := 0; i < a.N/25+6; i++ {
